@@ -189,6 +189,10 @@ def slice (b : Bytes) (i j : Int) (k : Bytes → Res) : Res :=
   if 0 ≤ i ∧ i ≤ j ∧ j ≤ b.length then k ((b.drop i.toNat).take (j.toNat - i.toNat))
   else panic "slice bounds out of range"
 
+/-- `b[i]` with Go's index check on a buffer of length `blen` (`index out of range`). -/
+def index (blen : Nat) (i : Int) (k : Res) : Res :=
+  if 0 ≤ i ∧ i < blen then k else panic "index out of range"
+
 /-- The bounds check of `b[i:j]` on a buffer of length `blen` whose contents do not matter yet (a view
 that is about to be overwritten by `io.ReadFull`): passes the length of the view. -/
 def sliceLen (blen : Nat) (i j : Int) (k : Nat → Res) : Res :=
@@ -226,6 +230,8 @@ def readPadded (cfg : Cfg) (s : Bytes) : Res :=
 one length byte, or — when `abrLong` — the next three bytes, with a zero top byte. -/
 def readAbridged (cfg : Cfg) (s : Bytes) : Res :=
   Res.alloc 4 <| Res.readN 1 s fun b0 s1 =>
+  -- `b.Buf[0]` on the 4-byte scratch buffer
+  Res.index 4 0 <|
   let cont (n : Nat) (s2 : Bytes) : Res :=
     if cfg.abrRejects n then Res.err (.badLen (cfg.abrBytes n).toNat)
     else Res.make (cfg.abrBytes n) fun m => Res.alloc m <| Res.readN m s2 fun payload s3 => Res.ok payload s3
